@@ -347,7 +347,7 @@ def t8_programs(tier):
 def t9_programs(tier):
     """a child reacts to the same event as its parent / activator, more specifically (so it is advanced first), and does
     something that is only carried out later in the same step: starts a grandchild, or ends and asks for its restart"""
-    for how in ("start c", "await c", "activate c", "start c and d"):
+    for how in ("start c", "await c", "activate c", "start c and d", "start ActPAction()", "await ActPAction()", "start ActPAction() and ActP2Action()"):
         for c_body in (["start ActCAction()", "match Never2()"], ["await ActCAction()"], ["match E3()"]):
             for m_end in ("finish", "abort"):
                 c = "flow c\n" + ind(c_body)
@@ -356,6 +356,11 @@ def t9_programs(tier):
                 m = "flow m\n" + ind(["start p", "match Ev()"] + (["abort"] if m_end == "abort" else []))
                 main = "flow main\n" + ind(["start m", "match Never()"])
                 yield (c + "\n" + d + "\n" + p + "\n" + m + "\n" + main, {}, {}, [("Ev", {"x": 1}), ("Ev", {}), "E3"], [], {"t": "T9", "form": "grandchild", "how": how, "c": c_body, "m_end": m_end})
+                # the parent ends through a LATER internal event of the same step: it waits for a sibling of p that finishes on the event
+                q = "flow q\n" + ind(["match Ev()"])
+                m2 = "flow m\n" + ind(["start p", "start q", "match q.Finished()"] + (["abort"] if m_end == "abort" else []))
+                yield (c + "\n" + d + "\n" + p + "\n" + q + "\n" + m2 + "\n" + main, {}, {}, [("Ev", {"x": 1}), ("Ev", {}), "E3"], [],
+                       {"t": "T9", "form": "grandchild-parent-ends-through-sibling", "how": how, "c": c_body, "m_end": m_end})
     for f_body in (["start ActFAction()", "match Ev(x=1)"], ["match Ev(x=1)"], ["match Ev(x=1)", "start ActFAction()", "match E3()"]):
         for a_end in ("finish", "abort"):
             for two in (False, True):
